@@ -275,6 +275,7 @@ func (fg *FuncGen) applyCall(cl *callee, args []Val, pos token.Pos, guard string
 		}
 	}
 	// ghost call trace
+	thisFn := fg.pendingFnVal
 	fg.recordCall(cl, args, guard)
 	fg.pendingFnVal = ""
 	fg.callEpoch++
@@ -298,6 +299,10 @@ func (fg *FuncGen) applyCall(cl *callee, args []Val, pos token.Pos, guard string
 			if i < len(args) {
 				env.vars[n] = args[i]
 			}
+		}
+		if thisFn != "" {
+			// `thisfunc` in a function-type contract: the function value being called
+			env.vars["thisfunc"] = Val{T: thisFn, Typ: cl.sig}
 		}
 		// variadic: extra args are already packed by go/ssa
 		return env
@@ -432,6 +437,27 @@ func (fg *FuncGen) applyCall(cl *callee, args []Val, pos token.Pos, guard string
 	// object invariants of returned objects hold in the post state
 	for _, r := range results {
 		fg.assumeObjInv(r, st, true)
+	}
+	// ... and so do the invariants of the objects handed to a callee of this module (it
+	// re-establishes the invariant of everything it writes: objinv obligations at its exits)
+	if cl.inModule && cl.kind != "extern" {
+		for i, a := range args {
+			if a.T == "" || a.Typ == nil {
+				continue
+			}
+			if cl.ct != nil && i < len(cl.params) && hasProp(cl.ct.NoInv, cl.params[i]) {
+				continue
+			}
+			if ct, _ := fg.structInvFor(a.Typ); ct != nil {
+				// only when the callee wrote something the invariant depends on (then the invariant
+				// was obligated before the call - argInvariants / ownObjectsAcrossCall - and the callee
+				// re-established it); an untouched object keeps whatever this function made of it
+				if !fg.depsChanged(fg.invDeps(ct, a.Typ), pre, st) {
+					continue
+				}
+				fg.assumeHere(implies(fmt.Sprintf("(not (= %s 0))", a.T), fg.invTerm(ct, a.Typ, a.T, st)))
+			}
+		}
 	}
 	_ = e
 	return rv
@@ -1829,6 +1855,8 @@ func (fg *FuncGen) implemented() (*Contract, []string) {
 
 func (fg *FuncGen) implEnv(st, old *State, names []string) *SpecEnv {
 	env := fg.ownEnv(st, old)
+	// `thisfunc` in the function-type contract this function implements: this very function
+	env.vars["thisfunc"] = Val{T: fg.funcID(fg.fn), Typ: fg.fn.Signature}
 	own := sigParamNames(fg.fn.Signature, true)
 	for i, n := range names {
 		if i < len(own) {
